@@ -49,7 +49,38 @@ type ConcState struct {
 	// defers: the deferred function literals registered so far on this path, per call depth, in registration order
 	defers map[int][]*ssa.Defer
 	dargs  map[*ssa.Defer][]ssa.Value
+	// slices: the part of a root slice parameter that a slice (or string converted from it) value denotes on this
+	// path, when its bounds are evident (ConcCfg.SliceLen fixes the parameter's length)
+	slices map[ssa.Value]SliceFact
 	cfg    *ConcCfg
+}
+
+// SliceFact: the value is Base[Lo:Hi] (Base a slice parameter of the explored function).
+type SliceFact struct {
+	Base   ssa.Value
+	Lo, Hi int64
+}
+
+// SliceOf reports which part of a root slice parameter v denotes on this path.
+func (st *ConcState) SliceOf(v ssa.Value) (SliceFact, bool) {
+	for k := 0; k < 16 && v != nil; k++ {
+		if f, ok := st.slices[v]; ok {
+			return f, true
+		}
+		switch x := v.(type) {
+		case *ssa.ChangeType:
+			v = x.X
+			continue
+		case *ssa.Convert:
+			v = x.X
+			continue
+		case *ssa.MakeInterface:
+			v = x.X
+			continue
+		}
+		v = st.alias[v]
+	}
+	return SliceFact{}, false
 }
 
 // Step returns the value v stands for on this path (nil: v itself).
@@ -68,8 +99,17 @@ func bind(ns, st *ConcState, dst, src ssa.Value) {
 	delete(ns.nils, dst)
 	delete(ns.syms, dst)
 	delete(ns.alias, dst)
+	if len(ns.slices) > 0 {
+		delete(ns.slices, dst)
+	}
 	if src == nil {
 		return
+	}
+	if f, ok := st.SliceOf(src); ok {
+		if ns.slices == nil {
+			ns.slices = map[ssa.Value]SliceFact{}
+		}
+		ns.slices[dst] = f
 	}
 	if kv, ok := st.eval(src, 0); ok {
 		ns.ints[dst] = kv
@@ -181,6 +221,12 @@ func (st *ConcState) clone() *ConcState {
 		n.fmem = make(map[string]int64, len(st.fmem))
 		for k, v := range st.fmem {
 			n.fmem[k] = v
+		}
+	}
+	if len(st.slices) > 0 {
+		n.slices = make(map[ssa.Value]SliceFact, len(st.slices))
+		for k, v := range st.slices {
+			n.slices[k] = v
 		}
 	}
 	for k, v := range st.ints {
@@ -301,6 +347,9 @@ func (st *ConcState) eval(v ssa.Value, d int) (int64, bool) {
 	case *ssa.Call:
 		// len of a value known to be nil on this path
 		if CallBuiltin(x) == "len" && len(x.Call.Args) == 1 {
+			if f, ok := st.SliceOf(x.Call.Args[0]); ok {
+				return f.Hi - f.Lo, true
+			}
 			a := x.Call.Args[0]
 			for k := 0; k < 8; k++ {
 				if n, known := st.IsNil(a); known && n {
@@ -372,6 +421,9 @@ type ConcCfg struct {
 	// InlineAny: static callees with source in the analysed packages (exported ones included) that are explored
 	// inline although they are not helpers in the sense of Eligible.
 	InlineAny func(h *ssa.Function) bool
+	// SliceLen fixes the length of a slice parameter of the explored function: slices of it with evident bounds are
+	// then tracked as intervals (ConcState.SliceOf), len() of them is evident.
+	SliceLen func(p *ssa.Parameter) (int64, bool)
 	// Fork lets a rule split the path after an instruction that was not explored inline (an opaque call, the Extract of
 	// its result): one successor per alternative, each with the given facts about values and its own event.
 	Fork      func(in ssa.Instruction, st *ConcState) []ConcAlt
@@ -396,9 +448,10 @@ type ConcCfg struct {
 
 // ConcAlt is one alternative outcome of an instruction (see ConcCfg.Fork).
 type ConcAlt struct {
-	Ev   string
-	Ints map[ssa.Value]int64
-	Nils map[ssa.Value]bool
+	Ev     string
+	Ints   map[ssa.Value]int64
+	Nils   map[ssa.Value]bool
+	Slices map[ssa.Value]SliceFact
 }
 
 // stackDepth is a placeholder kept for rules that want to know whether an event happens in the root function; the
@@ -465,6 +518,9 @@ func ConcPaths(fn *ssa.Function, cfg ConcCfg) (seqs []string, truncated bool) {
 				f += vkey(r) + "/"
 			}
 			facts = append(facts, f)
+		}
+		for v, f := range st.slices {
+			facts = append(facts, vkey(v)+"["+strconv.FormatInt(f.Lo, 10)+":"+strconv.FormatInt(f.Hi, 10)+"]")
 		}
 		for a, k := range st.fmem {
 			facts = append(facts, "@"+a+"="+strconv.FormatInt(k, 10))
@@ -667,12 +723,14 @@ func ConcPaths(fn *ssa.Function, cfg ConcCfg) (seqs []string, truncated bool) {
 					_, h1 := st.ints[v]
 					_, h2 := st.nils[v]
 					_, h3 := st.alias[v]
-					if h1 || h2 || h3 {
+					_, h4 := st.slices[v]
+					if h1 || h2 || h3 || h4 {
 						st = st.clone()
 						delete(st.ints, v)
 						delete(st.nils, v)
 						delete(st.alias, v)
 						delete(st.syms, v)
+						delete(st.slices, v)
 					}
 				}
 			}
@@ -817,6 +875,31 @@ func ConcPaths(fn *ssa.Function, cfg ConcCfg) (seqs []string, truncated bool) {
 							v = nx
 						}
 						st.fvals[ad] = v
+					}
+				}
+			case *ssa.Slice:
+				if f, ok := st.SliceOf(x.X); ok && x.Max == nil {
+					lo, hi, good := f.Lo, f.Hi, true
+					if x.Low != nil {
+						if k, known := st.eval(x.Low, 0); known {
+							lo = f.Lo + k
+						} else {
+							good = false
+						}
+					}
+					if x.High != nil {
+						if k, known := st.eval(x.High, 0); known {
+							hi = f.Lo + k
+						} else {
+							good = false
+						}
+					}
+					if good && lo >= f.Lo && lo <= hi {
+						st = st.clone()
+						if st.slices == nil {
+							st.slices = map[ssa.Value]SliceFact{}
+						}
+						st.slices[x] = SliceFact{Base: f.Base, Lo: lo, Hi: hi}
 					}
 				}
 			case *ssa.Extract:
@@ -1099,6 +1182,12 @@ func ConcPaths(fn *ssa.Function, cfg ConcCfg) (seqs []string, truncated bool) {
 						for v, n := range a.Nils {
 							ns.nils[stripConv(v)] = n
 						}
+						for v, f := range a.Slices {
+							if ns.slices == nil {
+								ns.slices = map[ssa.Value]SliceFact{}
+							}
+							ns.slices[v] = f
+						}
 						nev := ev
 						if a.Ev != "" {
 							nev = append(append([]string{}, ev...), a.Ev)
@@ -1111,6 +1200,16 @@ func ConcPaths(fn *ssa.Function, cfg ConcCfg) (seqs []string, truncated bool) {
 		}
 	}
 	st := &ConcState{ints: map[ssa.Value]int64{}, nils: map[ssa.Value]bool{}, syms: map[ssa.Value]string{}, alias: map[ssa.Value]ssa.Value{}, mem: map[*ssa.Alloc]ssa.Value{}, cfg: &cfg}
+	if cfg.SliceLen != nil {
+		for _, p := range fn.Params {
+			if n, ok := cfg.SliceLen(p); ok {
+				if st.slices == nil {
+					st.slices = map[ssa.Value]SliceFact{}
+				}
+				st.slices[p] = SliceFact{Base: p, Lo: 0, Hi: n}
+			}
+		}
+	}
 	run(fn.Blocks[0], 0, nil, nil, st)
 	for s := range out {
 		seqs = append(seqs, s)
